@@ -216,6 +216,9 @@ class Ranger:
 
     def _structural(self, e):
         k = e[0]
+        inv = getattr(self, "invariants", None)
+        if inv and e in inv:
+            return inv[e]           # a field whose range is an invariant of its type (established elsewhere, named by the caller)
         if k == "int":
             return (e[1], e[1])
         if k == "discr":
@@ -269,10 +272,14 @@ class Ranger:
                 elif op in ("BitOr", "BitXor") and a[0] >= 0 and b[0] >= 0:
                     hi = (1 << max(a[1].bit_length(), b[1].bit_length())) - 1
                     r = (0, hi)
+                elif op == "Rem" and a[0] >= 0 and b[0] > 0:
+                    r = (0, min(a[1], b[1] - 1))
                 elif op == "Shr" and a[0] >= 0 and b[0] >= 0:
                     r = (a[0] >> b[1], a[1] >> b[0])
                 elif op == "Shl" and a[0] >= 0 and b[0] >= 0 and b[1] < 128:
                     r = (a[0] << b[0], a[1] << b[1])
+            elif op == "Rem" and b and b[0] > 0 and tr and tr[0] >= 0:
+                r = (0, b[1] - 1)
             elif op == "BitAnd":
                 for x in (a, b):
                     if x and x[0] >= 0:
